@@ -238,6 +238,18 @@ func genCacheEvents(t *rapid.T, c *CacheCase, nev int) {
 		} else if rapid.IntRange(0, 5).Draw(t, "hasref") == 0 {
 			nrefs = 1
 		}
+		if e.Kind == 5 && rapid.IntRange(0, 2).Draw(t, "twin") == 0 {
+			// a second deletion request of the same author for the same targets
+			// (and a repeated reference inside one request)
+			for k := len(c.Events) - 1; k >= 0; k-- {
+				if c.Events[k].Kind == 5 && len(c.Events[k].Refs) > 0 {
+					e.Author = c.Events[k].Author
+					e.Refs = append(e.Refs, c.Events[k].Refs...)
+					e.Refs = append(e.Refs, c.Events[k].Refs[0])
+					break
+				}
+			}
+		}
 		for j := 0; j < nrefs; j++ {
 			r := cacheRef{Tag: rapid.SampledFrom([]string{"e", "e", "a"}).Draw(t, "reftag")}
 			r.Extra = rapid.IntRange(0, 4).Draw(t, "extra") == 0
